@@ -90,3 +90,9 @@ Definition probe_fstr (e1 : pexpr) (parts : list (str + nat)) :=
   let r := rsubst 3 r1 (fstr_rq parts) in
   (inlinable r1, [probe_call_dialect d_sqlite r; probe_call_dialect d_generic r],
    (rq_ser (resolve e1), rq_ser (fstr_rq parts)), [dialect_has_concat d_sqlite; dialect_has_concat d_generic]).
+
+(* an RQ expression given as a term (nested std function calls under operators and calls), in any dialects: emitted text
+   and the structurally bad / unlicensed triples of the whole tree *)
+Definition probe_rexpr (dialects : list str) (r : rexpr) :=
+  map (fun d => (option_map (fun n : node => render_top (fst (fst n), snd (fst n))) (translate d (rsize r) r),
+                 map fst (filter (fun tv => negb (verdict_ok (snd tv))) (tree_triples d (rsize r) r)))) dialects.
